@@ -48,7 +48,64 @@ def _exception_group(*args):
     return ExceptionGroup(str(args[0]) if args else 'group', [ValueError('inner'), KeyError(3)])
 
 
+class UserRangeError(ValueError):
+    """A user exception whose constructor takes two required arguments and whose
+    args are not what it was constructed with (cannot be rebuilt as type(e)(msg))."""
+
+    def __init__(self, attribute, value):
+        super().__init__('{} out of range: {!r}'.format(attribute, value))
+        self.attribute = attribute
+        self.value = value
+
+
+class UserKwError(Exception):
+    """Keyword-only constructor; str() is not args[0]."""
+
+    def __init__(self, *, detail):
+        super().__init__()
+        self.detail = detail
+
+    def __str__(self):
+        return 'kw error: {}'.format(self.detail)
+
+
+def _range_error(*args):
+    return UserRangeError('size', args[0] if args else None)
+
+
+def _kw_error(*args):
+    return UserKwError(detail=args[0] if args else None)
+
+
+def _user_recognition_error(*args):
+    # a user's own subclass of yatiml.RecognitionError with a two-argument constructor
+    import yatiml
+    global _URE
+    if _URE is None:
+        class UserRecognitionError(yatiml.RecognitionError):
+            def __init__(self, attribute, value):
+                super().__init__('{} not acceptable: {!r}'.format(attribute, value))
+                self.attribute = attribute
+                self.value = value
+        _URE = UserRecognitionError
+    return _URE('size', args[0] if args else None)
+
+
+_URE = None
+_USE = None
+
+
+def _marked_yaml_error(*args):
+    # a user class re-using PyYAML's marked error (context, context_mark, problem, problem_mark)
+    import yaml
+    return yaml.MarkedYAMLError(None, None, str(args[0]) if args else None, None)
+
+
 EXC_TABLE = {
+    'UserRangeError': _range_error,
+    'UserKwError': _kw_error,
+    'UserRecognitionError': _user_recognition_error,
+    'MarkedYAMLError': _marked_yaml_error,
     'ValueError': ValueError,
     'TypeError': TypeError,
     'KeyError': KeyError,
@@ -104,6 +161,17 @@ def make_exc(fault):
     if name == 'SeasoningError':
         import yatiml
         return yatiml.SeasoningError(*args)
+    if name == 'UserSeasoningError':
+        # the user's own subclass of the protocol exception, two-argument constructor
+        import yatiml
+        global _USE
+        if _USE is None:
+            class UserSeasoningError(yatiml.SeasoningError):
+                def __init__(self, attribute, value):
+                    super().__init__('{}: {!r}'.format(attribute, value))
+                    self.attribute = attribute
+            _USE = UserSeasoningError
+        return _USE('size', args[0] if args else None)
     if name == 'RecognitionError':
         import yatiml
         return yatiml.RecognitionError(*args)
